@@ -28,6 +28,6 @@ For each change i = 1..{n} deliver, under /tmp/benign-out-{pid}/<i>/ (create the
   - demo_test.go : a deterministic Go test in package dns (or dns_test) that shows the behavioural DIFFERENCE: it PASSES on the clean checkout and FAILS with the change applied (or the other way round - say which in meta.json). It is kept outside the repo; copy it into the worktree temporarily to run it.
   - meta.json : {{"property": "{pid}", "summary": "<one line: what changes>", "difference": "<the observable difference the demo shows>", "why_property_holds": "<clause-by-clause argument that the property as stated still holds>", "files": [...], "ran": ["<commands you ran and their outcome>"]}}
 
-PROCEDURE for each change: make the edit in the worktree; run the full suite (must pass; run it twice); run the demo with and without the change; save patch.diff; `git checkout -- . && git clean -fd`. Leave the worktree clean at the end.
+PROCEDURE for each change: make the edit in the worktree; run the full suite (must pass; run it twice); run the demo with and without the change; save patch.diff; `git checkout -- . && git clean -fd`. Leave the worktree clean at the end. Never use `git stash` (the stash is shared by all worktrees of the repository and other people work in theirs at the same time): save a change with `git diff > file` and undo it with `git checkout -- .`.
 
 Final answer: for each change, the one-line summary, the observable difference, and the argument why the property still holds.""")
